@@ -3,7 +3,7 @@
    an arbitrary function (never an axiom).  Strings are lists of code points; theorems quantify over ALL strings. *)
 From Coq Require Import ZArith List Bool.
 From PV Require Import Lib.PyBase Model.C07Regex Model.IsoParse Model.DurParse Model.ParseTotal.
-From PV Require Import Proofs.C13Int Proofs.C13Main Proofs.C17Facts Proofs.C17Total Proofs.C17Py.
+From PV Require Import Proofs.C13Int Proofs.C13Main Proofs.C17Facts Proofs.C17Total Proofs.C17Py Proofs.C17Trail.
 Import ListNotations.
 Open Scope Z_scope.
 
@@ -332,3 +332,34 @@ Theorem model_is_code_pendulum_parse_all : forall du rs o s, du_native du -> wf_
   pchain_parser_parse rs (iso8601 rs) du s o = parse_full du rs o s.
 Proof. exact pchain_full_eq_all. Qed.
 Print Assumptions model_is_code_pendulum_parse_all.
+
+(* 20. the class "a valid form followed (or preceded) by free text", on a grid: ten heads (one per family of accepted forms) x an ASCII pad of
+   0..16 characters (letters, or a blank first) x one character of UTF-8 width 1 / 2 / 3 / 4 bytes x {nothing, " fin"} after it, and the same
+   characters in front of the head -- 2810 texts; strict=True refuses every one with ParserError, both backends, whatever dateutil does.  (The model
+   reads code points: what the compiled parser does with the BYTES of the remainder is the run's stream valid-prefix-trailing-text.) *)
+Theorem trailing_text_rejected : forall du rs s, In s trail_grid -> parse_full du rs opts0 s = Raise E_ParserError.
+Proof. exact trail_grid_rejected. Qed.
+Print Assumptions trailing_text_rejected.
+
+Example trailing_text_rejected_hyps : length trail_grid = 2810%nat /\
+  In ([50;48;50;52;45;48;53;45;49;55;84;48;57;58;51;48;58;48;48] ++ [32;97;98;99;100;101;102;103;104;8217] ++ [32;102;105;110]) trail_grid.
+Proof.
+  split; [exact trail_grid_size|]. assert (E : nth 155 trail_grid [] = [50;48;50;52;45;48;53;45;49;55;84;48;57;58;51;48;58;48;48] ++ [32;97;98;99;100;101;102;103;104;8217] ++ [32;102;105;110])
+    by (vm_compute; reflexivity).
+  rewrite <- E. apply nth_In. rewrite trail_grid_size. apply Nat.ltb_lt. vm_compute. reflexivity.
+Qed.
+
+(* ... the multi-byte character of a tail starts at EVERY byte offset 0..16 of the remainder (so for each width some tail has a character across
+   byte 10, the length to which a diagnostic would shorten the remainder) *)
+Theorem trailing_text_offsets_covered : forall k, (k < 17)%nat -> forall c, In c trail_chars ->
+  In (pad_x k ++ c :: trail_fin) trail_tails /\ utf8_len (pad_x k) = Z.of_nat k.
+Proof. exact trail_offsets_covered. Qed.
+Print Assumptions trailing_text_offsets_covered.
+
+(* ... and the refusal is NOT true of every trailing character: a Unicode Nd digit continues a field for the pure-Python backend (listed finding
+   strict-lenient-python-regex); the compiled backend refuses it *)
+Theorem trailing_text_rejected_refuted : forall du,
+  parse_full du false opts0 [50;48;50;52;45;48;53;45;49;55;32;1635] = Ok (V_p (mkp 1 2024 5 17 3 0 0 0 (Some 0))) /\
+  parse_full du true opts0 [50;48;50;52;45;48;53;45;49;55;32;1635] = Raise E_ParserError.
+Proof. exact trail_nd_digit. Qed.
+Print Assumptions trailing_text_rejected_refuted.
